@@ -94,6 +94,16 @@ def rel_of_slot(slot):
     return UNI.paths[slot][len("/vws/R/"):]
 
 
+# decoys present in every materialised tree: unused project fixtures whose names (or directories) differ ONLY IN CASE,
+# in directories no layout file can see -- they must be listed, counted 0, and always in the same order
+DECOY_FILES = {
+    "casing/conftest.py": "import pytest\n\n\n@pytest.fixture\ndef CaseFx():\n    return 1\n\n\n@pytest.fixture\ndef casefx():\n    return 2\n",
+    "Casing2/conftest.py": "import pytest\n\n\n@pytest.fixture\ndef same_fx():\n    return 1\n",
+    "casing2/conftest.py": "import pytest\n\n\n@pytest.fixture\ndef same_fx():\n    return 2\n",
+}
+DECOYS = {("casing/conftest.py", "CaseFx"), ("casing/conftest.py", "casefx"), ("Casing2/conftest.py", "same_fx"), ("casing2/conftest.py", "same_fx")}
+
+
 def check_c20(tier):
     V = C.Verdict("C20", tier, "model_checking")
     # ---- part 1: library level over the whole layout table (unused set vs layer R)
@@ -120,6 +130,10 @@ def check_c20(tier):
         root = os.path.join(base, "t%d" % n)
         materialise(root, ctx)
         ws = os.path.join(root, "R")
+        for rel, text in DECOY_FILES.items():
+            os.makedirs(os.path.dirname(os.path.join(ws, rel)), exist_ok=True)
+            with open(os.path.join(ws, rel), "w") as fh:
+                fh.write(text)
         out = {"sk": sk, "n": n}
         try:
             runs = []
@@ -147,8 +161,8 @@ def check_c20(tier):
         texts = {rel_of_slot(s): r.text for s, r in ctx.files.items()}
         # expectations from TLC (layer R is order independent; layer I per registration order)
         row0 = cases[0]["unused"][0]
-        py_unused = {(rel_of_slot(x["file"]), x["name"]) for x in row0["py"]}
-        impl_unused = [{(rel_of_slot(x["file"]), x["name"]) for x in c["unused"][0]["impl"]} for c in cases]
+        py_unused = {(rel_of_slot(x["file"]), x["name"]) for x in row0["py"]} | DECOYS
+        impl_unused = [{(rel_of_slot(x["file"]), x["name"]) for x in c["unused"][0]["impl"]} | DECOYS for c in cases]
         blame = set()
         for c in cases:
             for r2 in c["goto"]:
@@ -157,9 +171,11 @@ def check_c20(tier):
         for r2 in cases[0]["refs"]:
             k = (rel_of_slot(r2["d"]["file"]), r2["name"])
             py_counts[k] = py_counts.get(k, 0) + len(r2["py"] or [])
+        for k in DECOYS:
+            py_counts[k] = 0
         impl_counts = []
         for c in cases:
-            d = {}
+            d = {k: 0 for k in DECOYS}
             for x in c["unused"][0]["counts"]:
                 d[(rel_of_slot(x["file"]), x["name"])] = x["n"]
             impl_counts.append(d)
@@ -174,6 +190,10 @@ def check_c20(tier):
             V.violation(dict(ex, output=so0), "`fixtures unused` lists an entry twice")
         if (rc0 == 1) != bool(listed) or rc0 not in (0, 1):
             V.violation(dict(ex, output=so0, exit=rc0), "`fixtures unused` exit status does not match its list")
+        decoy_orders = [[e for e in parse_unused_text(r[1]) if e in DECOYS] for r in res["unused_runs"]]
+        if any(o != decoy_orders[0] for o in decoy_orders[1:]):
+            V.violation(dict(ex, orders=decoy_orders, runs=[r[1] for r in res["unused_runs"]]),
+                        "`fixtures unused` prints entries that differ only in case in a different order from run to run")
         if any(r != res["unused_runs"][0] for r in res["unused_runs"][1:]):
             e2 = dict(ex, runs=[r[1] for r in res["unused_runs"]])
             if blame:
